@@ -7,6 +7,7 @@
 -/
 import GrogModel.Lemmas.FsBackend
 import GrogModel.Lemmas.Store
+import GrogModel.Lemmas.StoreEmit
 namespace Grog.C07
 open Grog
 
@@ -94,5 +95,60 @@ example :
        .existsRes 1 .cas [2] .yes,
        .setBegin 1 2 .target [9] [] [[2]], .setEnd 1 2 .ok,
        .getRes 3 .target [9] .yes, .getRes 3 .cas [3] .no]).isSome = true := by decide
+
+/-! ## The code's order of store operations is a run of the model (the guards are met, not assumed) -/
+
+/-- **`dir_write_is_run`.** Writing a directory output as `DirectoryOutputHandler.Write` + `TargetResultCache.Write` do it
+    (GrogModel/Tree.lean: the uploads of `encList`, then the marshalled `treeMsg`, then the result) emits backend events
+    that `Store.step` accepts from *every* state in which the process has nothing in flight, for *every* tree: each file blob
+    goes under the digest of its content, the tree blob is written when every digest **its content references**
+    (`Store.treeRefs`, the file nodes of root and children) is confirmed, the result when the tree blob is. So "blobs → tree →
+    result" is a property of the emitted sequence, proved here, not only a guard that a caller is assumed to respect; with
+    `store_sound_invariant` the result is visible only together with everything it references. -/
+theorem dir_write_is_run (H : Bytes → Bytes) (serD : Directory → Bytes) (serT : TreeMsg → Bytes)
+    (es : List (Name × Entry)) (s : Store.State) (p : Store.Pid) (k rbytes : Bytes) (hp : s.pend p = []) :
+    ∃ s', Store.run H s (Store.dirOutputEvs H serD serT es s p k rbytes) = some s' ∧
+      s'.tgt k = some ⟨rbytes, [H (serT (treeMsg H serD es))]⟩ ∧
+      (Store.Sound H s → Store.Sound H s' ∧
+        ∀ r ∈ Store.treeRefs (treeMsg H serD es), Store.vis s' r = true) := by
+  obtain ⟨s', hr, ht, _, hrefs⟩ := Store.dirOutput_is_run H serD serT es s p k rbytes hp
+  refine ⟨s', hr, ht, fun hs => ?_⟩
+  have hs' := Store.sound_run hs _ hr
+  exact ⟨hs', fun r hrm => hs'.confBacked p r (hrefs r hrm)⟩
+
+/-- and a kill at any point of that sequence (any prefix, then `crash p` with any subset of in-flight writes landing) is
+    still a run, hence leaves a sound store: the prefix property of runs -/
+theorem run_prefix (H : Bytes → Bytes) (s : Store.State) (a b : List Store.Ev) (s' : Store.State)
+    (h : Store.run H s (a ++ b) = some s') : ∃ s1, Store.run H s a = some s1 := by
+  rw [Store.run_append'] at h
+  cases h1 : Store.run H s a with
+  | none => simp [h1] at h
+  | some s1 => exact ⟨s1, rfl⟩
+
+theorem dir_write_killed_anywhere (H : Bytes → Bytes) (serD : Directory → Bytes) (serT : TreeMsg → Bytes)
+    (es : List (Name × Entry)) (s : Store.State) (p : Store.Pid) (k rbytes : Bytes) (hp : s.pend p = [])
+    (hs : Store.Sound H s) (pre suf : List Store.Ev) (landed : List Nat)
+    (hsplit : Store.dirOutputEvs H serD serT es s p k rbytes = pre ++ suf) :
+    ∃ s', Store.run H s (pre ++ [.crash p landed]) = some s' ∧ Store.Sound H s' := by
+  obtain ⟨s3, hr, _, _⟩ := dir_write_is_run H serD serT es s p k rbytes hp
+  rw [hsplit] at hr
+  obtain ⟨s1, h1⟩ := run_prefix H s pre suf s3 hr
+  have h2 : ∃ s2, Store.step H s1 (.crash p landed) = some s2 := ⟨_, rfl⟩
+  obtain ⟨s2, h2⟩ := h2
+  refine ⟨s2, ?_, ?_⟩
+  · rw [Store.run_append', h1]; simp [Store.run, h2]
+  · exact Store.sound_step (Store.sound_run hs _ h1) _ h2
+
+/-- a non-empty instance: a directory with two files of equal content, an executable one and a sub-directory, written into
+    the empty store by process 1 (`H := id`, toy marshalling): the emitted events are a run, the result is visible -/
+def exDir : List (Name × Entry) := [([97], .file [1] false), ([98], .file [1] true), ([99], .dir [([100], .file [2] false)])]
+def exSerD (d : Directory) : Bytes := (d.files.map (·.name)).flatten
+def exSerT (m : TreeMsg) : Bytes := (m.root.files.map (·.digest)).flatten
+
+example :
+    ∃ s', Store.run id Store.init (Store.dirOutputEvs id exSerD exSerT exDir Store.init 1 [107] [7]) = some s' ∧
+      (s'.tgt [107]).isSome = true := by
+  obtain ⟨s', hr, ht, _⟩ := dir_write_is_run id exSerD exSerT exDir Store.init 1 [107] [7] rfl
+  exact ⟨s', hr, by simp [ht]⟩
 
 end Grog.C07
